@@ -11,7 +11,8 @@ Proof. exact parse_write_forest. Qed.
 Print Assumptions C09_newick_roundtrip.
 
 (* character level: the TEXT written for any forest whose identifiers are non-negative and
-   whose heights are rendered over the alphabet of "%.3f" (digits, '.', '-'; non-empty) lexes and
+   whose heights are rendered over the alphabet of "%.3f" (digits, '.', '-', and the letters of
+   inf / -inf / nan, which "%.3f" writes for infinite and undefined heights; non-empty) lexes and
    parses back to exactly that forest - any size, any depth, any identifiers *)
 Theorem C09_text_roundtrip : forall f, all_ok f -> parse_text (render (toks_forest f)) = Some f.
 Proof. exact parse_text_render. Qed.
@@ -80,6 +81,13 @@ Example C09_example :
   parse_text (render (toks_forest [NNode 10 "1.000" []; NNode 2 "-0.250" [NNode 1 "2.000" []; NNode 305 "0.500" []]]))
   = Some [NNode 10 "1.000" []; NNode 2 "-0.250" [NNode 1 "2.000" []; NNode 305 "0.500" []]].
 Proof. vm_compute. reflexivity. Qed.
+
+(* infinite heights (saturated pixels, data blanked to -inf) are inside the alphabet *)
+Example C09_example_infinite_heights :
+  all_ok [NNode 3 "inf" [NNode 1 "-inf" []; NNode 2 "nan" []]] /\
+  parse_text (render (toks_forest [NNode 3 "inf" [NNode 1 "-inf" []; NNode 2 "nan" []]]))
+  = Some [NNode 3 "inf" [NNode 1 "-inf" []; NNode 2 "nan" []]].
+Proof. split; [cbn; unfold hok; cbn; repeat split; try discriminate; try (intros H; discriminate H) | vm_compute; reflexivity]. Qed.
 
 (* the hypothesis of C09_text_roundtrip is met by that forest *)
 Example C09_example_all_ok :
